@@ -217,8 +217,9 @@ def _check_run(engine, case, tree: Tree, idx: Index, res: CaseResult, nt: list):
                     res.violate(f"{engine}|ondone-not-taken|{tree[expect_fire].kind}", {"engine": engine, "state": expect_fire})
                     expect_fire = None
                 cur_recv = (e[1], e[2])
-                # only events *sent after* completion (a later send()/send_events() call) count
-                recv_after_done = completed_before_step
+                # once the machine is done nothing is dequeued any more: neither a later send() nor an
+                # event that was already waiting in the queue when the final state was entered
+                recv_after_done = completed
                 seg_start = set(active)
                 fired_in_seg = []
                 if e[1].startswith("done.state."):
@@ -226,8 +227,8 @@ def _check_run(engine, case, tree: Tree, idx: Index, res: CaseResult, nt: list):
                     if S0 in ondone_of and S0 in seg_start and tree.done(S0, seg_start) and ondone_of[S0].guard is None \
                             and not completed:
                         expect_fire = S0
-                if completed_before_step and e[2] is not None:
-                    res.violate(f"{engine}|event-processed-after-done", {"engine": engine, "event": e[1]})
+                if completed:
+                    res.violate(f"{engine}|event-processed-after-done|{'later-send' if completed_before_step else 'queued-behind-completion'}", {"engine": engine, "event": e[1]})
                 cur_desig = None
                 if e[1].startswith("done.state."):
                     S = e[1][len("done.state."):]
